@@ -15,12 +15,59 @@ use std::fs::File;
 use std::path::{Path, PathBuf};
 use std::time::SystemTime;
 
-static CACHE: parking_lot::RwLock<Option<HashMap<PathBuf, (SystemTime, ArrowReaderMetadata)>>> =
+/// What the file system says about a file's current content without reading
+/// it: length, modification time and — where the platform has them — inode and
+/// change time. A cache entry is valid only while ALL of them are unchanged.
+/// Modification time alone is not enough: it is user-settable (`cp -p`,
+/// `rsync -t`, `tar x`, a restore from backup), so a file replaced by different
+/// content with its old mtime kept was served from the previous version's
+/// footer; inode and ctime are not user-settable and change on every rewrite
+/// or rename-over.
+#[derive(Clone, Debug, PartialEq, Eq)]
+pub(crate) struct FileStamp {
+    len: u64,
+    mtime: Option<SystemTime>,
+    inode: u64,
+    ctime: (i64, i64),
+}
+
+impl FileStamp {
+    pub(crate) fn of(meta: &std::fs::Metadata) -> Self {
+        #[cfg(unix)]
+        let (inode, ctime) = {
+            use std::os::unix::fs::MetadataExt;
+            (meta.ino(), (meta.ctime(), meta.ctime_nsec()))
+        };
+        #[cfg(not(unix))]
+        let (inode, ctime) = (0u64, (0i64, 0i64));
+        Self {
+            len: meta.len(),
+            mtime: meta.modified().ok(),
+            inode,
+            ctime,
+        }
+    }
+
+    /// A printable form, for stamps that are written to disk.
+    pub(crate) fn token(&self) -> String {
+        let (s, ns) = self
+            .mtime
+            .and_then(|t| t.duration_since(std::time::UNIX_EPOCH).ok())
+            .map(|d| (d.as_secs(), d.subsec_nanos()))
+            .unwrap_or((0, 0));
+        format!(
+            "{}:{}.{:09}:{}:{}.{:09}",
+            self.len, s, ns, self.inode, self.ctime.0, self.ctime.1
+        )
+    }
+}
+
+static CACHE: parking_lot::RwLock<Option<HashMap<PathBuf, (FileStamp, ArrowReaderMetadata)>>> =
     parking_lot::RwLock::new(None);
 
 /// Cached footer metadata for `path` (plain reader options).
 pub fn cached_metadata(path: &Path) -> Result<ArrowReaderMetadata> {
-    let mtime = std::fs::metadata(path)?.modified()?;
+    let mtime = FileStamp::of(&std::fs::metadata(path)?);
     {
         let guard = CACHE.read();
         if let Some(map) = guard.as_ref() {
@@ -52,7 +99,7 @@ pub fn cached_reader_builder(path: &Path) -> Result<ParquetRecordBatchReaderBuil
 }
 
 static SCHEMA_CACHE: parking_lot::RwLock<
-    Option<HashMap<(PathBuf, usize), (SystemTime, ArrowReaderMetadata)>>,
+    Option<HashMap<(PathBuf, usize), (FileStamp, ArrowReaderMetadata)>>,
 > = parking_lot::RwLock::new(None);
 
 /// Reader builder with a coercion schema override (e.g. dictionary string
@@ -62,7 +109,7 @@ pub fn cached_reader_builder_with_schema(
     schema: arrow::datatypes::SchemaRef,
 ) -> Result<ParquetRecordBatchReaderBuilder<File>> {
     let key = (path.to_path_buf(), std::sync::Arc::as_ptr(&schema) as usize);
-    let mtime = std::fs::metadata(path)?.modified()?;
+    let mtime = FileStamp::of(&std::fs::metadata(path)?);
     {
         let guard = SCHEMA_CACHE.read();
         if let Some(map) = guard.as_ref() {
